@@ -33,6 +33,7 @@ func runC19(l *core.Ledger) {
 		return
 	}
 	l.Rule("C19-S1", "each provided sort key (package-level var of the sorter's less-func type) is a strict weak order: irreflexive, asymmetric, transitive, incomparability transitive — decided exhaustively over the abstract domain of the projections it compares")
+	l.Rule("C19-S4", "the provided keys order by what their names promise: ID and Port increasing over an integer projection (the port number, not its text), LastNodeError nodes without an error first")
 	l.Rule("C19-S2", "MultiSorter.Less combines the keys lexicographically: returns true on less(p,q), false on less(q,p) for all keys but the last in order from key 0, and the last key's less(p,q) otherwise; p,q = elements i,j of the slice being sorted")
 	l.Rule("C19-S3", "Sort stores its argument and calls sort.Sort on the receiver; Swap exchanges exactly elements i and j; Len is the length of that slice; no other function writes MultiSorter.nodes")
 	c19S1(l, r)
@@ -101,6 +102,7 @@ type keyModel struct {
 	p1, p2 types.Object
 	locals map[types.Object]*projRef // locals defined from a projection
 	projs  map[string]projKind
+	ordTyp map[string]types.Type // type of the operands of an ordered comparison, per projection
 	err    error
 }
 
@@ -257,6 +259,9 @@ func (ev *keyEval) expr(e ast.Expr) (bool, bool) {
 				return false, false
 			}
 			m.note(lp.canon, projOrdered)
+			if m.ordTyp != nil {
+				m.ordTyp[lp.canon] = m.info.TypeOf(x.X)
+			}
 			a, b := ev.val(lp), ev.val(rp)
 			switch x.Op {
 			case token.LSS:
@@ -390,7 +395,7 @@ func c19S1(l *core.Ledger, r *rt) {
 		}
 		p1, p2 = r.pkg.TypesInfo.Defs[names[0]], r.pkg.TypesInfo.Defs[names[1]]
 		// pass 1: discover projections with a dummy evaluation over all-zero state
-		m := &keyModel{info: r.pkg.TypesInfo, p1: p1, p2: p2, locals: map[types.Object]*projRef{}, projs: map[string]projKind{}}
+		m := &keyModel{info: r.pkg.TypesInfo, p1: p1, p2: p2, locals: map[types.Object]*projRef{}, projs: map[string]projKind{}, ordTyp: map[string]types.Type{}}
 		// discovery needs to traverse all branches: evaluate over a small set of states repeatedly until stable
 		call := func(a, b absElem) (bool, bool) {
 			ev := &keyEval{m: m, a: a, b: b}
@@ -467,6 +472,65 @@ func c19S1(l *core.Ledger, r *rt) {
 			continue
 		}
 		l.Check(len(bad) == 0, "C19-S1", construct, k.pos, "strict weak order over "+detail, "not a strict weak order ("+strings.Join(bad, "; ")+"); "+detail)
+		if len(bad) == 0 {
+			c19S4(l, k, m, states, less)
+		}
+	}
+}
+
+// c19S4: the three provided keys order by what their names and documentation
+// promise. The table is fixed: ID and Port are increasing orders over an
+// integer projection (Port's over the port *number*: the textual port of
+// differently wide ports orders "10000" before "443"), LastNodeError puts
+// nodes without an error first. Keys not in the table carry no obligation.
+func c19S4(l *core.Ledger, k keyDef, m *keyModel, states []absElem, less func(a, b absElem) bool) {
+	want, ok := map[string]string{"ID": "int", "Port": "int", "LastNodeError": "nil-first"}[k.name]
+	if !ok || len(m.projs) != 1 {
+		return
+	}
+	construct := "gorums." + k.name
+	var canon string
+	var kind projKind
+	for c, kd := range m.projs {
+		canon, kind = c, kd
+	}
+	// direction: the element with the smaller projection comes first
+	dirOK := true
+	for _, a := range states {
+		for _, b := range states {
+			if a[canon] < b[canon] && !less(a, b) {
+				dirOK = false
+			}
+		}
+	}
+	switch want {
+	case "int":
+		t := m.ordTyp[canon]
+		isInt := false
+		if t != nil {
+			if b, ok := t.Underlying().(*types.Basic); ok && b.Info()&types.IsInteger != 0 {
+				isInt = true
+			}
+		}
+		if kind != projOrdered || !isInt {
+			ts := "?"
+			if t != nil {
+				ts = t.String()
+			}
+			l.Bad("C19-S4", construct, k.pos, fmt.Sprintf("the %s key must order by a number, but compares %s of type %s (text order differs from numeric order as soon as two values differ in width)", k.name, canon, ts))
+			return
+		}
+		if k.name == "Port" && !strings.Contains(canon, "Port") && !strings.Contains(strings.ToLower(canon), "addr") {
+			l.Bad("C19-S4", construct, k.pos, "the Port key does not look at the node's port: compares "+canon)
+			return
+		}
+		l.Check(dirOK, "C19-S4", construct, k.pos, "increasing order over the integer "+canon, "the "+k.name+" key is documented as increasing, but a node with the smaller "+canon+" is not ordered first")
+	case "nil-first":
+		if kind != projNil {
+			l.Bad("C19-S4", construct, k.pos, "LastNodeError must separate nodes without an error from nodes with one; it compares "+canon+" as an ordered value")
+			return
+		}
+		l.Check(dirOK, "C19-S4", construct, k.pos, "nodes without error first ("+canon+")", "LastNodeError is documented to put nodes without an error first, but orders them last")
 	}
 }
 
@@ -733,7 +797,20 @@ func c19S3(l *core.Ledger, r *rt) {
 		case store == nil:
 			l.Bad("C19-S3", key, fn.Pos(), "Sort does not store its argument slice in the receiver")
 		case call == nil:
-			l.Bad("C19-S3", key, fn.Pos(), "Sort does not call sort.Sort on the receiver")
+			// one pass per key is only lexicographic when every pass is stable
+			var unstable *ssa.Call
+			sx.WithAnon(fn, func(f *ssa.Function) {
+				sx.AllInstrs(f, func(n sx.Node, in ssa.Instruction) {
+					if c, ok := in.(*ssa.Call); ok && calleeIs(&c.Call, "sort.Slice", "slices.SortFunc", "sort.Sort") && sx.InLoop(n) {
+						unstable = c
+					}
+				})
+			})
+			if unstable != nil {
+				l.Bad("C19-S3", key, unstable.Pos(), "Sort makes one pass per key with "+sx.StaticCalleeName(&unstable.Call)+", which is not stable: the pass for an earlier key scrambles the order the later keys established among its ties")
+			} else {
+				l.Unknown("C19-S3", key, fn.Pos(), "Sort neither calls sort.Sort/sort.Stable on the receiver nor uses a form this rule knows")
+			}
 		case !sx.InstrDominates(fn, store, sx.NodeOf(call)):
 			l.Bad("C19-S3", key, call.Pos(), "sort.Sort is reachable before the argument slice is stored")
 		default:
